@@ -378,6 +378,40 @@ example : toMat 2 2 (⟨[2, 4, 4, 3], 2, 2⟩ : Matrix ℚ)
     simp [toMat, Decomp.get, EasyMl.Matrix.getIndex, Matrix.mul_apply, Fin.sum_univ_two,
       Matrix.vecMul, dotProduct, Matrix.diagonal_apply] <;> norm_num
 
+/-- **LDLᵀ decides definiteness**: for a symmetric real input on which the model is present, the
+    input is positive definite exactly when every diagonal entry of `D` is positive (Sylvester's
+    law of inertia for the congruence by the invertible unit-triangular `L`).  So an indefinite
+    input is accepted — with a negative entry in `D` — and a positive definite one never has one. -/
+theorem ldlt_posDef_iff_diag_pos (A L D : Matrix ℝ) (h : ldlt A = some (L, D))
+    (hsym : (toMat A.rows A.rows A).transpose = toMat A.rows A.rows A) :
+    (toMat A.rows A.rows A).PosDef ↔ ∀ i : Fin A.rows, 0 < toMat A.rows A.rows D i i := by
+  obtain ⟨_, _, _, hlow, hone, hdiag, _, _, hfull⟩ :=
+    ldlt_sound (fun a b => RealModel.eq_eq a b) A L D h
+  have hprod := hfull hsym
+  set Lm := toMat A.rows A.rows L with hLm
+  set Dm := toMat A.rows A.rows D with hDm
+  have hdet : Lm.det = ∏ i, Lm i i := Matrix.det_of_isLowerTriangular Lm (fun i j hij => hlow i j hij)
+  have hunit : IsUnit Lm := by
+    rw [Matrix.isUnit_iff_isUnit_det, hdet]
+    simp [hone]
+  have hDdiag : Dm = Matrix.diagonal (fun i => Dm i i) := by
+    ext i j
+    by_cases hij : i = j
+    · rw [hij, Matrix.diagonal_apply_eq]
+    · rw [Matrix.diagonal_apply_ne _ hij, hdiag i j hij]
+  have hcongr : (toMat A.rows A.rows A).PosDef ↔ Dm.PosDef := by
+    rw [← hprod]
+    have := Matrix.IsUnit.posDef_star_right_conjugate_iff (x := Dm) hunit
+    rwa [Matrix.star_eq_conjTranspose, Matrix.conjTranspose_eq_transpose_of_trivial] at this
+  rw [hcongr, hDdiag, Matrix.posDef_diagonal_iff]
+  constructor
+  · intro hpos i
+    have := hpos i
+    rwa [Matrix.diagonal_apply_eq]
+  · intro hpos i
+    have := hpos i
+    rwa [Matrix.diagonal_apply_eq] at this
+
 /-- **Absence of LDLᵀ ⇔ non-square input or a zero pivot.**  The model is absent exactly when
     the input is not square or when, with the columns before `j` computed, the `j`-th pivot
     `A[j,j] − Σ_{k<j} L[j,k]²·D[k,k]` is zero. -/
@@ -623,6 +657,41 @@ example : (∀ i j : Fin 2, i < j → (!![2, 0; 1, 2] : _root_.Matrix (Fin 2) (F
   constructor
   · intro i j hij; fin_cases i <;> fin_cases j <;> simp_all
   · intro i; fin_cases i <;> simp
+
+/-! ### any element type: the factorisations commute with structure-preserving maps -/
+
+section natural
+variable {α β : Type}
+  [Add α] [Sub α] [Mul α] [Div α] [Neg α] [Zero α] [One α] [RealFns α] [NumOrd α]
+  [Add β] [Sub β] [Mul β] [Div β] [Neg β] [Zero β] [One β] [RealFns β] [NumOrd β]
+
+/-- **Cholesky and LDLᵀ are natural in the element type.**  For any map `φ` between element types
+    that commutes with `+ − × ÷ 0 1 sqrt` and the comparisons (`NumHom φ`), factoring the image of
+    a tensor gives the image of its factors — presence and every entry, every size.  The routines
+    are generic: they cannot do anything at one numeric type that they do not do at another. -/
+theorem factorisations_natural {φ : α → β} (h : NumHom φ) (A : Matrix α) :
+    cholesky (mapM φ A) = (cholesky A).map (mapM φ) ∧
+    ldlt (mapM φ A) = (ldlt A).map (fun s => (mapM φ s.1, mapM φ s.2)) :=
+  ⟨cholesky_natural h A, ldlt_natural h A⟩
+
+/-- **Over `Trace<T>` the value of the factor is the factor of the values**: for dual numbers
+    (`Dual R`, the model of `Trace<T>` with the rules of `trace_operations.rs`) over any element
+    type `R`, the number parts of the Cholesky / LDLᵀ factors of `A` are the factors of the number
+    parts of `A`, and the decomposition is present for the one exactly when it is for the other —
+    whatever the derivative parts are. -/
+theorem factorisations_over_trace {R : Type} [Add R] [Sub R] [Mul R] [Div R] [Neg R] [Zero R] [One R]
+    [RealFns R] [NumOrd R] (A : Matrix (Dual R)) :
+    cholesky (mapM Dual.number A) = (cholesky A).map (mapM Dual.number) ∧
+    ldlt (mapM Dual.number A)
+      = (ldlt A).map (fun s => (mapM Dual.number s.1, mapM Dual.number s.2)) :=
+  factorisations_natural dualNumber_hom A
+
+/-- Non-vacuity: the identity is such a map (and `Dual.number` by `dualNumber_hom`). -/
+example : NumHom (id : Fp → Fp) :=
+  ⟨rfl, rfl, fun _ _ => rfl, fun _ _ => rfl, fun _ _ => rfl, fun _ _ => rfl, fun _ => rfl,
+    fun _ _ => rfl, fun _ _ => rfl⟩
+
+end natural
 
 /-! ### shape rejection -/
 
